@@ -62,6 +62,31 @@ def gen_spec(rng: random.Random, S=None, A=None, E=None, kind="random", R=None, 
     rew = [[[float(rng.randint(-R, R)) for _ in range(E)] for _ in range(A)] for _ in range(S)]
     prob = [[dyadic_row(rng, E, denom) for _ in range(A)] for _ in range(S)]
     tags = []
+    if kind == "cost":
+        # all rewards <= 0 (cost problems): value estimates decrease from a zero start
+        rew = [[[-abs(x) for x in row] for row in a] for a in rew]
+        tags.append("cost")
+    if kind == "twosink" and S >= 3:
+        # a +c sink, a -c sink and transient states that trade the immediate reward against the sink they move to; deterministic, so from a
+        # zero start every state's first change has the same magnitude c (mixed signs), and the myopic policy is far from optimal
+        cR = float(R)
+        A = max(A, 2)
+        E = E
+        nxt = [[[0] * E for _ in range(A)] for _ in range(S)]
+        rew = [[[0.0] * E for _ in range(A)] for _ in range(S)]
+        prob = [[dyadic_row(rng, E, denom) for _ in range(A)] for _ in range(S)]
+        for s in range(S):
+            for a in range(A):
+                for e in range(E):
+                    if s == 0:
+                        nxt[s][a][e], rew[s][a][e] = 0, cR
+                    elif s == 1:
+                        nxt[s][a][e], rew[s][a][e] = 1, -cR
+                    else:
+                        good = (a % 2 == 1)
+                        nxt[s][a][e], rew[s][a][e] = (0, -cR) if good else (1, cR)
+        amins, amaxs = make_box(rng, A, adim, True)
+        tags.append("twosink")
     if kind == "periodic":
         # deterministic cycle structure of period p over classes s % p; every action moves to the next class
         p = rng.randint(2, min(4, max(2, S)))
